@@ -1,5 +1,6 @@
 SPECIFICATION Spec
 CONSTANTS
+  Dev = {}
   Mode = "types"
   MaxParams = 0
 CHECK_DEADLOCK FALSE
